@@ -1900,7 +1900,7 @@ func init() {
 		ID: "C05", Level: "exploration",
 		Rule: "a case = (ground-truth EBU STL model: GSI field values, DFC 25/30, DSC 0/1/2, TCP, TTI blocks incl. user-data blocks, timecodes, VP, JC, rows of styled runs over the Latin table; rendering choices: box form (double/single/open box codes), colour and other spacing control codes and their place, style-code form, blanks at row edges, leading/empty/trailing rows, attributes left on at the end of the field; option ignore-TCP; write options: metadata kind, instant rounding, attribute form, NFC/NFD, cue attributes given/partly given/absent). Every field ranges over a boundary-complete value table: CPN {437,850,860,863,865}; DSC {0,1,2,blank}; LC {the 5 named codes, 0A, 00, 7F, blank}; the ten free-text fields {typical, empty, exactly full, one character, one short of full, inner double blank + punctuation}; CD/RD {8 dates: century digits, 29 Feb, 68/69/70}; RN {0,1,9,10,99}; TNG {1,2,9,10,255}; MNC {0,1,9,10,38,40,99}; MNR {0,1,9,10,11,23,24,99}; TCS {0,1}; TCP {0, 1 frame, 1 s, 1 min, 1 h, 09:59:59:last, 10 h, 23:59:59:last}; TND/DSN {1,9}; CO {FRA,NOR,CHN,US,blank}; spare bytes {blank, filled}; UDA {empty, short, all 576 bytes used with every byte value}; SGN {0,1,255}; SN base {0,1}; EBN {FF,00,01,EF,FE}; CS 0..3; comment flag {0,1}. Enumerated by the E1 explorer (three full products of small grammars + twelve full products over the value tables of neighbouring GSI / TTI fields, row layouts and cue-attribute forms + every case within B deviations of the baseline over all choice points and all value tables) and by plain nested loops: {0,9,10,max}^4 timecodes as TCP = TCI (digit boundaries of the textual GSI timecodes), text fields of 96..112 bytes (exactly full, last byte letter / accented letter / off code / end box / line break), every teletext control code 01h..1Fh x 4 places x box form, every pair of EBN x comment flag on two blocks of one subtitle number, every timecode of the stated h,m,s sets x ALL frame numbers, TCP x TCI over all frame pairs, every assigned code of the Latin table, every diacritic x base character, diacritic pairs across rows/cues, every string of style codes (<=3 before, <=2|3 inside the text), every millisecond of a second on the write side. Read: ReadFromSTL(ref.Encode(model)) must denote the model (metadata fields, one cue per non-user-data block, instants exact to <1 ns, VP, JC, rows of styled characters up to canonical equivalence), then WriteToSTL of the result must keep every TCI/TCO and re-read to the same instants. Write: WriteToSTL(model) must be 1024+128n bytes and denote the model's cues (instant within one frame) and metadata to ref.Decode and to ReadFromSTL, with GSI totals = number of blocks and TCF = first TCI; read-write again keeps every timecode. non-trivial = non-baseline case, distinct by its serialised form",
 		Scope: map[core.Tier]string{
-			core.Quick:    "core product (fps x DSC x TCP x ignore x user-data placement x <=2 rows x <=2 runs x 3 styles x box/style-code forms), block-pattern product (<=3 cues, user-data blocks before each and after), write-option product, value products gsi-id (CPN x DFC x DSC x LC), gsi-titles/-names/-refs (three neighbouring text fields x 6 values each), gsi-dates (SLR x CD x RD x RN), gsi-nums (0/1/2 cues x TNG x MNC x MNR x TCS x DSC), gsi-tc (8 TCP x ignore x fps x DSC x 3 TCI x TND x DSN x CO), gsi-tail (PUB x EN x ECD x spare x UDA), tti-hdr (SGN x SN base x EBN x CS x CF x user-data placement x DSC), rows-open / rows-teletext (<=3 rows x <=2 runs x leading/empty/trailing row x indent x trailing blanks x filler x attributes left on x box form), w-item (cue attributes x VP x JC x DSC x metadata kind); deviation ball B=2 over ~200 choice points (<=3 cues, <=3 rows, <=3 runs, 8 styles, 19 text atoms, all value tables); {0,9,10,max}^4 timecodes as TCP=TCI x ignore; text fields of 96..112 bytes; control codes 01h..1Fh x 4 places x 3 box forms; EBN pairs x comment flags; files of 255/256/257/300/511/513 cues (subtitle-number byte boundary, GSI totals); timecodes {0,1,23}h x {0,1,30,59}m x 0..59 s x all frames at 25 and 30 fps; 13 diacritics x 63 bases; style-code strings <=3 / <=2; every valid VP x JC; every ms of a second (write)",
+			core.Quick:    "core product (fps x DSC x TCP x ignore x user-data placement x <=2 rows x <=2 runs x 3 styles x box/style-code forms), block-pattern product (<=3 cues, user-data blocks before each and after), write-option product, value products gsi-id (CPN x DFC x DSC x LC), gsi-titles/-names/-refs (three neighbouring text fields x 6 values each), gsi-dates (SLR x CD x RD x RN), gsi-nums (0/1/2 cues x TNG x MNC x MNR x TCS x DSC), gsi-tc (8 TCP x ignore x fps x DSC x 3 TCI x TND x DSN x CO), gsi-tail (PUB x EN x ECD x spare x UDA), tti-hdr (SGN x SN base x EBN x CS x CF x user-data placement x DSC), rows-open / rows-teletext (<=3 rows x <=2 runs x leading/empty/trailing row x indent x trailing blanks x filler x attributes left on x box form), w-item (cue attributes x VP x JC x DSC x metadata kind); deviation ball B=2 over ~200 choice points (<=3 cues, <=3 rows, <=3 runs, 8 styles, 19 text atoms, all value tables); {0,9,10,max}^4 timecodes as TCP=TCI x ignore; text fields of 96..112 bytes; control codes 01h..1Fh x 4 places x 3 box forms; EBN pairs x comment flags; files of 255/256/257/300/511/513 cues (subtitle-number byte boundary, GSI totals); timecodes {0,1,23}h x {0,1,30,59}m x 0..59 s x all frames at 25 and 30 fps; 13 diacritics x 63 bases; style-code strings <=3 / <=2; every valid VP x JC; every ms of a second (write); 10 metadata text fields x 10 values outside ASCII (layout: 1024 + 128 per block, other fields and cues unchanged)",
 			core.Thorough: "as quick with deviation ball B=3, files of 1000/9999/10001/65535 cues, every timecode of the day (24 x 60 x 60 x all frames, both rates), style-code strings <=3 / <=3",
 		},
 		Assumptions: []string{"Go toolchain and standard library; golang.org/x/text/unicode/norm for canonical equivalence of the compared text",
